@@ -376,6 +376,7 @@ class Live:
     ptr = 0
     snaps = []
     proposals = []
+    initial_flags = []
     terminal = None
     feedback_error = None
     sched = list(case['sched']) + ['p'] * CONT
@@ -405,6 +406,7 @@ class Live:
         nauto += 1 if ('reward' in d.metadata and d.metadata.get('feedback_sequence_number') is None) else 0
         canon_key(space, d.metadata.get('dedup_key'), d)
         proposals.append(space.idx(d))
+        initial_flags.append(d.metadata.get('initial_population') is True)
       else:
         while ptr < len(hist) and hist[ptr][2]:
           ptr += 1
@@ -422,7 +424,7 @@ class Live:
               break
             hist[ptr][1] = r
           ptr += 1
-    return dict(snaps=snaps, proposals=proposals, repro=repro, terminal=terminal, updates=updates, live=alg, skipped=nskipped, auto_rewarded=nauto, feedback_error=feedback_error)
+    return dict(snaps=snaps, proposals=proposals, repro=repro, terminal=terminal, updates=updates, live=alg, initial_flags=initial_flags, hist=hist, skipped=nskipped, auto_rewarded=nauto, feedback_error=feedback_error)
 
   def recover(self, history_json, sched_rest, want_cont):
     """Fresh instance, same space, replay persisted history. Returns (obs | error tree, continuation)."""
@@ -435,7 +437,19 @@ class Live:
       return [-2, err_code(ex)], [], '%s: %s' % (type(ex).__name__, str(ex)[:200])
     o = observe(self.space, self.cfg, alg)
     cont = []
-    if want_cont:
+    if want_cont == 'init':
+      # the initial-population phase of a recovered Evolution: its proposals come from the (seeded) initialiser;
+      # stop (-9) at the first proposal that is not an initial individual or that fails
+      for _ in range(CONT):
+        try:
+          d = alg.propose()
+        except Exception:
+          cont.append(-9); break
+        if d.metadata.get('initial_population') is True:
+          cont.append(self.space.idx(d))
+        else:
+          cont.append(-9); break
+    elif want_cont:
       for _ in range(CONT):
         try:
           cont.append(self.space.idx(alg.propose()))
@@ -499,6 +513,24 @@ def diff_clause(cfg, live, rec):
       return 'inner-' + c[0], 'inner algorithm: ' + c[1]
   return None
 
+_JS_CACHE = {}
+def js_reward(hjson, j):
+  """The reward of entry j of a persisted history (None while in flight)."""
+  if _JS_CACHE.get('key') != id(hjson):
+    _JS_CACHE['key'] = id(hjson)
+    _JS_CACHE['val'] = [r for _, r in pg().from_json_str(hjson)]
+  return _JS_CACHE['val'][j]
+
+def init_cfg(cfg):
+  """The population initialiser of the Evolution inside cfg, as a configuration."""
+  e = cfg_evo(cfg)
+  if e[0] == 'gevo':
+    return e[1]
+  return ['rand', e[-1]]
+
+def deterministic_init(cfg):
+  return is_evo(cfg_evo(cfg)) and deterministic(init_cfg(cfg))
+
 def evaluate_case(case, lv=None):
   """Runs the real algorithm uninterrupted, recovers a fresh instance at every crash point.
   Returns (impl_out_tree, hits, info) where hits = [(signature, what, crash_point)]."""
@@ -517,7 +549,7 @@ def evaluate_case(case, lv=None):
                  '%s: feedback() of the uninterrupted run raises %s (event %d of schedule %s)' % (shape(cfg), res['feedback_error'], res['terminal'][0], ''.join(sched)), res['terminal'][0]))
   for c, (hjson, lobs, hu, hp) in enumerate(res['snaps']):
     k = lobs[0]
-    robs, rcont, err = lv.recover(hjson, None, det)
+    robs, rcont, err = lv.recover(hjson, None, True if det else ('init' if deterministic_init(cfg) else False))
     und = []
     if hu is not None:
       uobs, _, uerr = lv.recover(hu, None, False)
@@ -568,6 +600,20 @@ def evaluate_case(case, lv=None):
       hits.append(('C15/nsga2-elites/NSGA2', 'NSGA2: the elites (proposal ids %s) are %s after recovery (crash point %d of schedule %s)' % (lobs[4][3:], robs[4][3:], c, ''.join(sched)), c))
     elif det and lcont != rcont:
       hits.append(('C15/continuation/%s' % sh, '%s continues with %s after recovery, the uninterrupted run with %s (crash point %d)' % (sh, rcont, lcont, c), c))
+    elif not det and is_evo(cfg) and deterministic_init(cfg):
+      # the initial population comes from a seeded generator: when no initial individual is in flight, the recovered
+      # algorithm must go on with the initial individuals the uninterrupted run proposes next
+      flags = res['initial_flags']
+      expected = []
+      for j in range(k, min(k + CONT, len(P))):
+        if not flags[j]:
+          break
+        expected.append(P[j])
+      in_flight = any(flags[j] and js_reward(hjson, j) is None for j in range(k))
+      got = [x for x in rcont if x != -9]
+      if expected and not in_flight and got[:len(expected)] != expected:
+        hits.append(('C15/initial-population-continuation/%s' % sh,
+                     '%s goes on with the initial individuals %s after recovery, the uninterrupted run with %s (crash point %d of schedule %s)' % (sh, got, expected, c, ''.join(sched)), c))
   live = res['live']
   allobs = [o[0] for o in outs]
   def walk(o):
@@ -609,36 +655,45 @@ def lag_sched(n, w):
       out.append('f')
   return out
 
-def gen_cfg(rng, kind):
-  seed = rng.choice([1, 2, 7])
+BIG_SEED = 2 ** 31 + 11
+SEEDS = [0, 1, BIG_SEED, None]       # 0 is falsy but a valid seed; None = unseeded (global PRNG)
+
+def gen_cfg(rng, kind, seed='random'):
+  """Parameters include the smallest valid (often falsy) values: seed 0, sizes 0 / 1, max_proposal_attempts 1."""
+  if seed == 'random':
+    seed = rng.choice([0, 0, 1, 2, 7, BIG_SEED])
+    eseed = seed if rng.random() < 0.85 else None          # the seed of an Evolution-based algorithm may be None too
+  else:
+    eseed = seed
   if kind == 'sweep': return ['sweep']
-  if kind == 'rand': return ['rand', seed if rng.random() < 0.7 else None]
+  if kind == 'rand': return ['rand', seed if (seed is None or rng.random() < 0.7) else None]
   if kind == 'regevo':
-    t = rng.choice([2, 3]); return ['regevo', rng.choice([t, t + 1, 5]), t, seed]
-  if kind == 'hill': return ['hill', rng.choice([1, 2, 3]), rng.choice([1, 2, 3]), seed]
-  if kind == 'nsga2': return ['nsga2', rng.choice([2, 3, 3, 4, 5]), seed]
-  if kind == 'neat': return ['neat', rng.choice([2, 3, 4]), seed]
+    t = rng.choice([2, 3]); return ['regevo', rng.choice([t, t + 1, 5]), t, eseed]
+  if kind == 'hill': return ['hill', rng.choice([1, 2, 3]), rng.choice([0, 1, 2, 3]), eseed]
+  if kind == 'nsga2': return ['nsga2', rng.choice([1, 2, 3, 3, 4, 5]), eseed]
+  if kind == 'neat': return ['neat', rng.choice([2, 3, 4]), eseed]
   if kind == 'gevo':
-    init = rng.choice([['sweep'], ['rand', seed], ['rand', None], ['dedup', ['rand', seed], 0, 0, 1, rng.choice([3, 100])]])
+    iseed = seed if seed is not None else 0
+    init = rng.choice([['sweep'], ['rand', seed], ['rand', None], ['dedup', ['rand', iseed], 0, 0, 1, rng.choice([3, 100])]])
     size = rng.choice([None, 0, 1, 2, 3, 4]) if init[0] != 'rand' else rng.choice([1, 2, 3, 4])
     upd = rng.choice([['none'], ['last', rng.choice([1, 2, 3])], ['top', rng.choice([1, 2])], ['laststep', rng.choice([1, 2]), rng.choice([2, 3])]])
     return ['gevo', init, size, upd, rng.choice([1, 1, 2, 3])]
   if kind.startswith('dedup-dedup-'):
     # a Deduping directly over a Deduping (the outer one with a custom hash: the default hash would cover the inner key)
-    return ['dedup', gen_cfg(rng, kind[6:]), rng.choice([2, 3]), 0, rng.choice([1, 2]), rng.choice([3, 100])]
+    return ['dedup', gen_cfg(rng, kind[6:], seed), rng.choice([2, 3]), 0, rng.choice([1, 2]), rng.choice([3, 100])]
   if kind.startswith('dedup-'):
-    inner = gen_cfg(rng, kind[6:])
+    inner = gen_cfg(rng, kind[6:], seed)
     auto = rng.choice([0, 1, 2]) if needs_feedback(inner) else rng.choice([0, 0, 1])
     if inner[0] == 'nsga2':
       auto = 0                     # sum / max of fitness tuples is not a fitness
     hashmod = rng.choice([0, 0, 2, 3])
-    return ['dedup', inner, hashmod, auto, rng.choice([1, 1, 2, 3]), rng.choice([2, 3, 5, 100])]
+    return ['dedup', inner, hashmod, auto, rng.choice([1, 1, 2, 3]), rng.choice([1, 2, 3, 5, 100])]
   raise KeyError(kind)
 
 KINDS = ['sweep', 'rand', 'dedup-sweep', 'dedup-rand', 'dedup-regevo', 'dedup-gevo', 'dedup-hill', 'dedup-nsga2', 'regevo', 'hill', 'nsga2', 'neat', 'gevo']
 
-def gen_case(rng, kind, n=None, lag=None):
-  cfg = gen_cfg(rng, kind)
+def gen_case(rng, kind, n=None, lag=None, seed='random'):
+  cfg = gen_cfg(rng, kind, seed)
   n = n if n is not None else rng.choice([3, 6, 10, 15, 20, 30])
   maxlag = lag if lag is not None else rng.choice([0, 1, 2, 3, 3, 5])
   names = SPACE_NAMES
@@ -695,14 +750,16 @@ def enc_alg(cfg, space, res, need, obj):
   if k == 'dedup':
     return [2, enc_alg(cfg[1], space, res, need, obj.generator), cfg[2], cfg[3], cfg[4], cfg[5]]
   rp = res['repro']
+  def init_rand(seed):
+    return enc_alg(['rand', seed], space, res, need, obj._init_population_generator)
   if k == 'regevo':
-    return [3, [1, draws(space, cfg[3], need)], [cfg[1]], [1, cfg[1]], rp]
+    return [3, init_rand(cfg[3]), [cfg[1]], [1, cfg[1]], rp]
   if k == 'hill':
-    return [3, [1, draws(space, cfg[3], need)], [cfg[2]], [2, 1], rp]
+    return [3, init_rand(cfg[3]), [cfg[2]], [2, 1], rp]
   if k == 'nsga2':
-    return [3, [1, draws(space, cfg[2], need)], [2 * cfg[1]], [6, cfg[1]], rp]
+    return [3, init_rand(cfg[2]), [2 * cfg[1]], [6, cfg[1]], rp]
   if k == 'neat':
-    return [3, [1, draws(space, cfg[2], need)], [cfg[1]], [3], rp]
+    return [3, init_rand(cfg[2]), [cfg[1]], [3], rp]
   if k == 'gevo':
     _, init, size, upd, nchild = cfg
     u = dict(none=[0], last=[1] + upd[1:], top=[2] + upd[1:], laststep=[5] + upd[1:])[upd[0]]
@@ -742,8 +799,8 @@ def corpus_cases():
 
 EXHAUSTIVE_CONFIGS = [
     ('s4', ['dedup', ['regevo', 2, 2, 1], 2, 1, 1, 3]),
-    ('s3h', ['dedup', ['rand', 1], 0, 0, 2, 3]),
-    ('s4', ['hill', 2, 1, 1]),
+    ('s3h', ['dedup', ['rand', 0], 0, 0, 2, 3]),
+    ('s4', ['hill', 2, 1, 0]),
     ('s3m', ['dedup', ['gevo', ['sweep'], None, ['laststep', 1, 2], 2], 3, 2, 1, 2]),
     ('s6', ['nsga2', 2, 1]),
     ('s6', ['neat', 3, 1]),
@@ -777,6 +834,12 @@ def plan(ctx):
     for w in (0, 1, 2, 3):
       for n in ctx.scale([8], [6, 14, 30]):
         cases.append(('lag%d' % w, gen_case(rng, kind, n=n, lag=w)))
+  # systematic sweep of the seed value (0 is falsy but valid; a large one; None = unseeded) over every kind that takes one
+  for kind in kinds:
+    if kind == 'sweep' or kind == 'dedup-sweep':
+      continue
+    for sd in SEEDS:
+      cases.append(('seed-sweep', gen_case(rng, kind, n=ctx.scale(7, 16), lag=rng.choice([0, 1, 2]), seed=sd)))
   # open finding (nested Deduping): its witness is replayed first; while it still fails the model (which shares the
   # metadata slots exactly as the code does) is run against the code on that shape too, otherwise the shape is left out
   try:
@@ -789,7 +852,7 @@ def plan(ctx):
     for kind in NESTED_KINDS:
       for _ in range(ctx.scale(2, 40)):
         cases.append(('random', gen_case(rng, kind, n=rng.choice([6, 10, 14]))))
-  for _ in range(ctx.scale(4, 110) * (len(KINDS) // len(kinds))):      # round-robin over the kinds: a wall-clock cut
+  for _ in range(ctx.scale(3, 110) * (len(KINDS) // len(kinds))):      # round-robin over the kinds: a wall-clock cut
     for kind in kinds:                                                  # of the tail costs every kind the same
       cases.append(('random', gen_case(rng, kind)))
   return cases
@@ -876,6 +939,7 @@ def run(ctx):
     ctx.hist('schedule_kind', tag)
     ctx.hist('space', case['space'])
     ctx.hist('reward_form', case.get('reward_form', 'native'))
+    ctx.hist('seed', seed_of(case['alg']))
     if case['alg'][0] == 'nsga2':
       ctx.hist('nsga2_max_elites', max([len(o[0][4]) - 3 for o in outs] or [0]))
     ctx.hist('crash_points_per_case', min(info['crash_points'] // 10 * 10, 60))
@@ -915,6 +979,16 @@ def run(ctx):
       for sig, what, c in hits:
         ctx.hit(sig, what, dict(case=case, crash_point=c))
     ctx.log('targeted search over %s: %d more cases, %d hits' % (kinds, len(extra), len(ctx.hits)))
+
+def seed_of(cfg):
+  if cfg[0] == 'dedup':
+    return seed_of(cfg[1])
+  if cfg[0] == 'sweep':
+    return 'n/a'
+  if cfg[0] == 'gevo':
+    return seed_of(cfg[1])
+  sd = cfg[1] if cfg[0] == 'rand' else cfg[-1]
+  return {0: '0', None: 'None', BIG_SEED: 'large'}.get(sd, 'small')
 
 def kind_of(cfg):
   if cfg[0] == 'dedup':
